@@ -41,7 +41,8 @@ def collect(ctx, tag):
         c = cases.get(sid, "")
         ctx.violation(key, "%s [scenario %s %s]" % (what, sid, c.split("|")[1] if c else ""),
                       {"scenario": sid, "case": c[:6000], "search": tag,
-                       "format": "id|kind|pre-existing savepoint|end (0 durable, 1 non-durable, 2 abort)|programs per thread (O open, P put, D delete, C close, S savepoint, R drop savepoint; table ids >= 100 are multimap)|executed log tid:label:tables-mutex-held",
+                       "format": "id|kind|pre-existing savepoint|end (0 durable, 1 non-durable, 2 abort)|programs per thread (O open, P put, D delete, C close, S savepoint, R drop savepoint; table ids >= 100 are multimap; savepoint handles 500..899 are persistent_savepoint() calls)|executed log tid:label:tables-mutex-held. "
+                                 "kind cgapr-sp<i>-r<js>-g<g> / hist-*: earlier whole transactions (regenerated from the seed), older savepoint taken before the i-th, read transactions begun after the js-th held live, a Savepoint dropped after g grants of the durable commit; psp-park-n<n>-a<a>-k<k>: thread a stopped after k grants until the others finished",
                        "how_to_replay": "harness bin c16: VERIF_SEED=%d c16 %s" % (ctx.seed, sid)})
     return cases
 
@@ -93,7 +94,12 @@ def run(ctx):
     cov["rule"] = ("forced schedules over the pause points of open_table's set_dirty and of ephemeral_savepoint / Savepoint::drop: "
                    "directed windows (savepoint thread stopped after k grants while another thread opens its first table, and the "
                    "reverse; with and without an older valid savepoint; ended by durable commit, non-durable commit, abort), a "
-                   "Savepoint dropped in every gap of the durable commit, and random schedules of 2-4 threads on distinct normal and "
+                   "Savepoint dropped in every gap of the durable commit, the same with a history before the shared transaction (a transaction that "
+                   "allocates pages and one that unlinks them, the older savepoint taken before / between / after them) and read transactions "
+                   "begun before / between / after them that stay live across the commit (accounting evaluated right after the commit, readers "
+                   "re-read), random histories of durable and non-durable transactions with readers and savepoints, 3-4 threads calling "
+                   "persistent_savepoint() with one of them stopped at every pause point until the others finished (ids distinct, listed, fresh "
+                   "after a reopen, each restorable) and random schedules of 2-4 threads on distinct normal and "
                    "multimap tables. distinct_nontrivial = distinct executed logs in which another thread was granted inside a call")
     cov["trusted_base"] = ["Coq 8.16.1 kernel + vm_compute", "idealisation: mutex sections atomic, SC; a table operation is one step",
                            "harness/src/conc.rs + harness/src/bin/c16.rs", "H3/H4 hooks (verif_snapshot, verif_reach, verif_tables_locked, pause points)",
